@@ -220,6 +220,11 @@ func genSkeletons() {
 		{"daemon/internal/newrelic/commands.go", "", "aggregateMetrics", "aggregateMetrics", true},
 		{"daemon/internal/newrelic/infinite_tracing/trace_observer.go", "TraceObserver", "Shutdown", "observerShutdown", true},
 		{"daemon/internal/newrelic/infinite_tracing/trace_observer.go", "TraceObserver", "doStreaming", "doStreaming", true},
+		// the sender goroutine of one request, and the constructor / consumer of the event reservoirs it carries
+		{"daemon/internal/newrelic/processor.go", "", "harvestPayload", "harvestPayload", true},
+		{"daemon/internal/newrelic/processor.go", "", "considerHarvestPayload", "considerHarvestPayload", true},
+		{"daemon/internal/newrelic/analytics_events.go", "", "newAnalyticsEvents", "newAnalyticsEvents", true},
+		{"daemon/internal/newrelic/analytics_events.go", "analyticsEvents", "AddEvent", "eventsAddEvent", true},
 	}
 	var b strings.Builder
 	b.WriteString("namespace Gen.Skeleton\n\n")
